@@ -208,6 +208,57 @@ def registry_sanity(rep):
     return groups
 
 
+def traced_runs(rep):
+    """Traced-run clause: in real runs (SCHED launcher, default schedule) the
+    mutators the strategies actually instantiate and use for candidates must
+    all be enabled according to the fold over the command line + detection."""
+    from .. import explore, scenarios as S, sched
+    groups = registry()
+    option_sets = [[], ['--disable-all', '--erase-node'],
+                   ['--no-core', '--constants'], ['--disable-all', '--bv'],
+                   ['--no-bv', '--bv-to-bool'], ['--no-boolean'],
+                   ['--arithmetic', '--no-arith-constants'],
+                   ['--disable-all', '--smtlib', '--no-let-elimination'],
+                   ['--strings', '--fp', '--no-smtlib']]
+    inputs = [('bool5', S.BOOL5, set()), ('bv', S.BV, {'bv'}),
+              ('int', S.INT, {'arithmetic'}), ('str', S.STR, {'strings'})]
+    units = []
+    for opts in option_sets:
+        for iname, text, declared in inputs:
+            for strat in S.STRATEGIES:
+                units.append((opts, iname, text, sorted(declared), strat))
+
+    def one(u):
+        opts, iname, text, declared, strat = u
+        scn = S.mk(f'c14/{iname}/{strat}/{"".join(opts)}', text,
+                   ('count', '(', 3), strat, 1, opts)
+        x = sched.run_once(scn, explore.Chooser([]))
+        used = set()
+        for e in x.log:
+            if e[0] == 'generated':
+                if e[1] == 'hier':
+                    used |= set(e[4])
+                else:
+                    used.add(e[6])
+        return opts, iname, declared, strat, sorted(used), \
+            x.crash and x.crash[:2]
+
+    for opts, iname, declared, strat, used, crash in common.pmap(
+            one, units, init=sched._init_worker):
+        rep.count('evaluations')
+        rep.count('traced_runs')
+        mut, grp = fold(groups, opts)
+        E = detect(groups, mut, grp, set(declared))
+        extra = set(used) - E
+        if extra:
+            rep.violation(f'traced|disabled-mutator-used|{opts}|{iname}', {
+                'brief': f'run with options {opts} on input {iname} '
+                         f'(--strategy {strat}) used the disabled mutators '
+                         f'{sorted(extra)}'})
+        if used and E != set(mut):
+            rep.count('distinct_nontrivial')
+
+
 def main(tier):
     rep = common.Reporter(PROP, 'exploration', tier)
     _init()
@@ -251,6 +302,7 @@ def main(tier):
     parts = common.pmap(run_unit, units, init=_init, chunksize=2)
     for p in parts:
         rep.merge(p)
+    traced_runs(rep)
     rep.set('alphabet', len(letters))
     rep.set(
         'rule',
